@@ -27,10 +27,11 @@ class Trampoline:
                 return
         try:
             self._run()
-        finally:
+        except BaseException:
             with self._lock:
                 self._idle = True
                 self._queue.clear()
+            raise
 
     def _run(self) -> None:
         ready: deque[ScheduledItem] = deque()
@@ -51,6 +52,10 @@ class Trampoline:
 
             with self._lock:
                 if len(self._queue) == 0:
+                    # Go idle in the same critical section as the emptiness
+                    # test: an item enqueued from now on starts a new drain
+                    # instead of being left behind (or cleared) unrun.
+                    self._idle = True
                     break
                 item = self._queue.peek()
                 seconds = (item.duetime - item.scheduler.now).total_seconds()
